@@ -72,7 +72,7 @@ CHECKS = {
         "(inside a group, after a statement and an open object, two blocks deep). Oracle: an independent recogniser/evaluator of the statement grammar written "
         "from the Blue Book / ODL BNF (no pvl code), extended for the default loader by exactly the missing-value "
         "rule. Assertion: a module is returned only if the reference accepts everything pulled up to END / end of "
-        "stream and the module equals the reference's. One known finding (D35) is listed and its class skipped. "
+        "stream and the module equals the reference's. "
         "Character level: ten constructs opened by concrete text (quoted string with either quote, comment, units, "
         "sequence, set, also nested and inside a group) followed by EVERY tail of 0-2 (quick) / 0-3 characters that does "
         "not close them: the load must raise. Outside: longer streams and tails.",
@@ -100,7 +100,7 @@ CHECKS = {
         "sibling groups of which a later one is not a valid PDS3 group; four encoders. "
         "Assertions: the second load equals the spec-side normalisation of the first (C01/C02 oracle for the "
         "encoder's dialect), its errors list is empty, and the two dumps are identical strings; encoder refusal is "
-        "allowed. The D35 class (see C05) is assumed away. Outside: corpus files, longer values.",
+        "allowed. Outside: corpus files, longer values.",
    ref='5 (C07)', technique='symbolic execution (symx) of loads/dumps/loads/dumps on templates with symbolic parts; z3'),
  'C08': dict(
    text="Bounded symbolic execution of the real default loader on 16 label templates (top level, inside blocks, first/"
